@@ -75,6 +75,13 @@ impl InMemoryIndex {
     { unimplemented!() }
 }
 
+pub struct BlobFileName { pub id: usize }
+impl BlobFileName {
+    #[verifier::external_body]
+    pub fn clone(&self) -> (r: BlobFileName) ensures r == *self { unimplemented!() }
+    pub fn id(&self) -> (r: usize) ensures r == self.id { self.id }
+}
+
 // filter object of the index (verified in units bloom / range_combined); here only its key set
 #[verifier::external_body]
 pub struct CombinedFilter { _p: u8 }
